@@ -27,6 +27,7 @@ type Ctx struct {
 	fnKey      map[*ssa.Function]string
 	contracts  map[string]*ContractFile // by package path
 	escFields  map[string]bool          // "S.sortname#idx" fields whose address escapes
+	merged     map[*ssa.Function]*FuncContract // explicit contract merged with the matching funcs blocks
 	mutGlobals map[string]bool          // globals stored to outside package initialisers
 	writeSets  map[*ssa.Function]*WriteSet
 	wsBusy     map[*ssa.Function]bool
@@ -77,7 +78,7 @@ func loadProgram(repo string, patterns []string, overlay map[string][]byte) (*Ct
 	prog.Build()
 	c := &Ctx{repo: repo, prog: prog, fset: prog.Fset, pkgs: map[string]*ssa.Package{}, ppkgs: map[string]*packages.Package{},
 		funcs: map[string]*ssa.Function{}, fnKey: map[*ssa.Function]string{}, contracts: map[string]*ContractFile{},
-		escFields: map[string]bool{}, mutGlobals: map[string]bool{}, writeSets: map[*ssa.Function]*WriteSet{}, wsBusy: map[*ssa.Function]bool{}, instWS: map[string]*WriteSet{}}
+		escFields: map[string]bool{}, mutGlobals: map[string]bool{}, writeSets: map[*ssa.Function]*WriteSet{}, wsBusy: map[*ssa.Function]bool{}, instWS: map[string]*WriteSet{}, merged: map[*ssa.Function]*FuncContract{}}
 	for i, sp := range spkgs {
 		if sp == nil {
 			continue
@@ -225,7 +226,54 @@ func (c *Ctx) contractFor(fn *ssa.Function) *FuncContract {
 	if cf == nil {
 		return nil
 	}
-	return cf.Funcs[key]
+	fc := cf.Funcs[key]
+	if len(cf.Groups) == 0 || (fc != nil && (fc.IsIface || fc.IsCB)) {
+		return fc
+	}
+	if m, ok := c.merged[fn]; ok {
+		return m
+	}
+	var m *FuncContract
+	for _, g := range cf.Groups {
+		if !groupMatches(g.Patterns, key) {
+			continue
+		}
+		if m == nil {
+			if fc != nil {
+				cp := *fc
+				cp.Requires = append([]Clause{}, fc.Requires...)
+				cp.Ensures = append([]Clause{}, fc.Ensures...)
+				cp.Props = append([]string{}, fc.Props...)
+				cp.FsPaths = append([]Clause{}, fc.FsPaths...)
+				m = &cp
+			} else {
+				m = &FuncContract{Pkg: cf.Pkg, Key: key, RecvName: "recv", Loops: map[int]*LoopSpec{}, Line: g.Line}
+				for i := 0; i < fn.Signature.Params().Len(); i++ {
+					m.Params = append(m.Params, fn.Signature.Params().At(i).Name())
+				}
+			}
+		}
+		add := func(dst *[]Clause, src []Clause) {
+			for _, cl := range src {
+				if fn.Signature.Recv() == nil && reRecvWord.MatchString(cl.Src) {
+					continue // closures and plain functions have no receiver
+				}
+				if cl.Props == nil {
+					cl.Props = g.Props
+				}
+				*dst = append(*dst, cl)
+			}
+		}
+		add(&m.Requires, g.Requires)
+		add(&m.Ensures, g.Ensures)
+		add(&m.FsPaths, g.FsPaths)
+		// the properties of a funcs block tag its own clauses only, not the function's other obligations
+	}
+	if m == nil {
+		m = fc
+	}
+	c.merged[fn] = m
+	return m
 }
 
 func (c *Ctx) pkgOf(fn *ssa.Function) *ssa.Package {
